@@ -13,7 +13,8 @@
        effective steps of every schedule ([effective_bounded]);
      - termination under weak fairness for INFINITE schedules ([fair_terminates]): if no reachable unfinished state
        is without an enabled *guaranteed* action, every weakly fair infinite schedule reaches a finished state;
-     - an executable exploration [explore] of all maximal runs with its completeness lemma [explore_complete]. *)
+     - an executable exploration [outcomes] of all maximal runs with completeness [outcomes_complete] and
+       soundness [outcomes_sound]. *)
 From Coq Require Import List Arith Lia Bool.
 Import ListNotations.
 
@@ -137,17 +138,32 @@ Section Conc.
     Definition succs (s : state) : list state :=
       flat_map (fun t => match step s t with Some s' => [s'] | None => [] end) labels.
 
-    (* outcomes of all maximal runs from s (fuel: any bound >= V s is enough, see [explore_complete]);
-       the second component is false when the fuel ran out (never, with enough fuel) *)
-    Fixpoint explore (fuel : nat) (s : state) : list obs * bool :=
+    (* outcomes of all maximal runs from s (any fuel >= V s is enough, see [outcomes_complete]); [fuel_ok] tells
+       whether the fuel sufficed (always, with fuel >= V s: [fuel_ok_enough]) *)
+    Fixpoint outcomes (fuel : nat) (s : state) : list obs :=
       match succs s with
-      | [] => ([observe s], true)
-      | ss => match fuel with
-              | 0 => ([], false)
-              | S f => fold_right (fun s' acc => let r := explore f s' in (fst r ++ fst acc, snd r && snd acc))
-                                  ([], true) ss
-              end
+      | [] => [observe s]
+      | s1 :: ss => match fuel with
+                    | 0 => []
+                    | S f => flat_map (outcomes f) (s1 :: ss)
+                    end
       end.
+
+    Fixpoint fuel_ok (fuel : nat) (s : state) : bool :=
+      match succs s with
+      | [] => true
+      | s1 :: ss => match fuel with
+                    | 0 => false
+                    | S f => forallb (fuel_ok f) (s1 :: ss)
+                    end
+      end.
+
+    Lemma outcomes_S f s : outcomes (S f) s =
+      match succs s with [] => [observe s] | s1 :: ss => flat_map (outcomes f) (s1 :: ss) end.
+    Proof. reflexivity. Qed.
+    Lemma fuel_ok_S f s : fuel_ok (S f) s =
+      match succs s with [] => true | s1 :: ss => forallb (fuel_ok f) (s1 :: ss) end.
+    Proof. reflexivity. Qed.
 
     Lemma succs_nil_quiescent s : succs s = [] -> quiescent s.
     Proof.
@@ -162,53 +178,60 @@ Section Conc.
       intros E. unfold succs. apply in_flat_map. exists t. split; [eapply labels_all; eauto|]. rewrite E. now left.
     Qed.
 
-    Lemma fold_in (f : nat) ss x s' :
-      In s' ss -> In x (fst (explore f s')) ->
-      In x (fst (fold_right (fun s' acc => let r := explore f s' in (fst r ++ fst acc, snd r && snd acc)) ([], true) ss)).
+    Lemma succs_inv s s' : In s' (succs s) -> exists t, step s t = Some s'.
     Proof.
-      induction ss as [|a ss IH]; intros Hin Hx; [destruct Hin|].
-      simpl. apply in_or_app. destruct Hin as [->|Hin]; [now left | right; now apply IH].
+      unfold succs. intros H. apply in_flat_map in H. destruct H as [t [_ Ht]].
+      destruct (step s t) eqn:E; [|destruct Ht]. destruct Ht as [<-|[]]. now exists t.
     Qed.
 
     (* completeness: the outcome of EVERY schedule that ends in a quiescent state is listed *)
-    Lemma explore_complete : forall sched s fuel, I s -> V s <= fuel -> quiescent (run s sched) ->
-      In (observe (run s sched)) (fst (explore fuel s)).
+    Lemma outcomes_complete : forall sched s fuel, I s -> V s <= fuel -> quiescent (run s sched) ->
+      In (observe (run s sched)) (outcomes fuel s).
     Proof.
-      induction sched as [|t r IH]; intros s fuel Hs Hv Hq; simpl in *.
-      - destruct fuel; simpl; destruct (succs s) eqn:E; try (now left);
-          (assert (Hin : In s0 (succs s)) by (rewrite E; now left));
-          unfold succs in Hin; apply in_flat_map in Hin; destruct Hin as [t [_ Ht]]; rewrite (Hq t) in Ht; destruct Ht.
+      induction sched as [|t r IH]; intros s fuel Hs Hv Hq; simpl in Hq |- *.
+      - assert (E : succs s = []).
+        { destruct (succs s) eqn:E; [reflexivity|].
+          assert (Hin : In s0 (succs s)) by (rewrite E; now left).
+          apply succs_inv in Hin. destruct Hin as [t Ht]. rewrite (Hq t) in Ht. discriminate. }
+        destruct fuel; simpl; rewrite E; now left.
       - destruct (step s t) eqn:E; [|now apply IH].
         pose proof (V_step _ _ _ Hs E) as Hd.
         destruct fuel as [|f]; [lia|].
         pose proof (in_succs _ _ _ E) as Hin.
-        simpl. destruct (succs s) eqn:Es; [destruct Hin|]. rewrite <- Es in *.
-        eapply fold_in; [exact Hin|]. apply IH; [eapply I_step; eauto | lia | exact Hq].
+        rewrite outcomes_S. destruct (succs s) eqn:Es; [destruct Hin|].
+        apply in_flat_map. exists s0. split; [exact Hin|].
+        apply IH; [eapply I_step; eauto | lia | exact Hq].
     Qed.
 
-    Lemma fold_fuel_ok (f : nat) ss :
-      (forall s', In s' ss -> snd (explore f s') = true) ->
-      snd (fold_right (fun s' acc => let r := explore f s' in (fst r ++ fst acc, snd r && snd acc)) ([], true) ss) = true.
-    Proof.
-      induction ss as [|a ss IH]; intros H; simpl; [reflexivity|].
-      rewrite (H a (or_introl eq_refl)), IH; [reflexivity|]. intros; apply H; now right.
-    Qed.
-
-    (* soundness of the fuel: with fuel >= V s the exploration never runs out *)
-    Lemma explore_fuel_ok : forall fuel s, I s -> V s <= fuel -> snd (explore fuel s) = true.
+    (* with fuel >= V s the exploration never runs out of fuel *)
+    Lemma fuel_ok_enough : forall fuel s, I s -> V s <= fuel -> fuel_ok fuel s = true.
     Proof.
       induction fuel as [|f IH]; intros s Hs Hv.
       - simpl. destruct (succs s) eqn:E; [reflexivity|].
         assert (Hin : In s0 (succs s)) by (rewrite E; now left).
-        unfold succs in Hin. apply in_flat_map in Hin. destruct Hin as [t [_ Ht]].
-        destruct (step s t) eqn:Et; [|destruct Ht]. pose proof (V_step _ _ _ Hs Et). lia.
-      - simpl. destruct (succs s) eqn:E; [reflexivity|]. rewrite <- E.
-        apply fold_fuel_ok. intros s' Hin. unfold succs in Hin. apply in_flat_map in Hin.
-        destruct Hin as [t [_ Ht]]. destruct (step s t) eqn:Et; [|destruct Ht].
-        destruct Ht as [<-|[]]. apply IH; [eapply I_step; eauto|]. pose proof (V_step _ _ _ Hs Et). lia.
+        apply succs_inv in Hin. destruct Hin as [t Et]. pose proof (V_step _ _ _ Hs Et). lia.
+      - rewrite fuel_ok_S. destruct (succs s) eqn:E; [reflexivity|].
+        apply forallb_forall. intros s' Hin. rewrite <- E in Hin.
+        apply succs_inv in Hin. destruct Hin as [t Et].
+        apply IH; [eapply I_step; eauto|]. pose proof (V_step _ _ _ Hs Et). lia.
+    Qed.
+
+    (* soundness: every listed outcome is the observation of a reachable quiescent state *)
+    Lemma outcomes_sound : forall fuel s o, In o (outcomes fuel s) ->
+      exists sched, quiescent (run s sched) /\ observe (run s sched) = o.
+    Proof.
+      induction fuel as [|f IH]; intros s o Hin.
+      - simpl in Hin. destruct (succs s) eqn:E; [|destruct Hin]. destruct Hin as [<-|[]].
+        exists []. split; [now apply succs_nil_quiescent | reflexivity].
+      - rewrite outcomes_S in Hin. destruct (succs s) eqn:E.
+        + destruct Hin as [<-|[]]. exists []. split; [now apply succs_nil_quiescent | reflexivity].
+        + apply in_flat_map in Hin. destruct Hin as [s' [Hs' Ho]]. rewrite <- E in Hs'.
+          apply succs_inv in Hs'. destruct Hs' as [t Et].
+          destruct (IH _ _ Ho) as [sched [Hq Hob]]. exists (t :: sched). simpl. rewrite Et. now split.
     Qed.
   End Rules.
 End Conc.
 
-Arguments explore {state label} step labels {obs} observe fuel s.
+Arguments outcomes {state label} step labels {obs} observe fuel s.
+Arguments fuel_ok {state label} step labels fuel s.
 Arguments succs {state label} step labels s.
